@@ -20,9 +20,16 @@ EXPLANATION = (
     "(size,<=), (overhead,<=), (nslices,>=) against the unscaled target; (AGREE) the "
     "three encodings of the targets (already_satisfied, the loop's stop tests, P) use "
     "the same attribute with a consistent direction; (APPLY) ContractionTree.slice "
-    "removes exactly the returned indices. Equality of the predicted costs with the "
-    "sliced tree's figures is integer arithmetic over two incremental models and is "
-    "not decided."
+    "removes exactly the returned indices; (ARITH) the arithmetic of the independent cost "
+    "model is evaluated symbolically for one abstract contraction (monomials in the index "
+    "dimensions) and equals the tree's definitions: initial totals and per-index "
+    "potentials, removal deltas, stored entry, entry layout, figures; (MODELCOPY) removing "
+    "an index from a cached model leaves it intact; (MODES) the three allow_outer modes; "
+    "(SPECIFIED) which targets are supplied, and every target test switched by its own "
+    "flag; (INTCOST) integer arithmetic only. That the model, so defined, predicts the "
+    "figures of the tree sliced on the returned set *for every tree* additionally needs "
+    "the tree's own updates to follow the same definitions (C04-ARITH) and is not "
+    "decided beyond that."
 )
 ASSUMPTIONS = ()
 
